@@ -22,11 +22,16 @@ type memoryQueue struct {
 	queue PriorityQueue
 	key   string
 	mutex sync.RWMutex
+	// firstEnqueuedAt remembers when an item entered the queue for the first
+	// time, so that an item that is dequeued and put back (its quota was still
+	// blocked) keeps its place among items of the same priority.
+	firstEnqueuedAt map[string]int64
 }
 
 func NewMemoryQueue(key string, _ time.Duration) publictypes.SharedQueueI {
 	memoryQueue := &memoryQueue{
-		key: fmt.Sprintf("%s%s", key, queueKeySuffix),
+		key:             fmt.Sprintf("%s%s", key, queueKeySuffix),
+		firstEnqueuedAt: map[string]int64{},
 	}
 	heap.Init(&memoryQueue.queue)
 	return memoryQueue
@@ -36,10 +41,15 @@ func (q *memoryQueue) Enqueue(item string, priority float64) error {
 	q.mutex.Lock()
 	defer q.mutex.Unlock()
 
+	timestamp, reEnqueued := q.firstEnqueuedAt[item]
+	if !reEnqueued {
+		timestamp = time.Now().UnixNano()
+		q.firstEnqueuedAt[item] = timestamp
+	}
 	heap.Push(&q.queue, &Item{
 		value:     item,
 		score:     calculateScore(priority),
-		timestamp: time.Now().UnixNano(),
+		timestamp: timestamp,
 	})
 	verifhook.Event("mq.push", item, strconv.FormatInt(time.Now().UnixNano(), 10))
 	return nil
@@ -67,6 +77,7 @@ func (q *memoryQueue) Remove(item string) {
 	q.mutex.Lock()
 	defer q.mutex.Unlock()
 
+	delete(q.firstEnqueuedAt, item)
 	for i, v := range q.queue {
 		if v.value == item {
 			heap.Remove(&q.queue, i)
